@@ -676,6 +676,13 @@ func (g *fgen) families() {
 	g.w("func RecNestedClos_%d() error {\n\treturn withTx_%d(func(k int) error {\n\t\treturn withTx_%d(func(j int) error { return RecNestedClos_%d() })\n\t})\n}\n", s, s, s, s)
 	g.w("func RecClosTuple_%d(n int) (int, error) {\n\treturn try_%d(func() (int, error) {\n\t\tv, err := RecClosTuple_%d(n - 1)\n\t\tif err != nil {\n\t\t\treturn 0, rp.Wrap(err)\n\t\t}\n\t\treturn v, nil\n\t})\n}\n", s, s, s)
 
+	// fields of DIFFERENT instantiations of one generic struct are different variables: an assignment through
+	// GBox[int] says nothing about a field of GBox[string] (seeded change C14-n: fields compared by Origin())
+	g.w("type GBox_%d[T any] struct {\n\tV T\n\tN int\n}\n", s)
+	g.w("func GenFieldSwap_%d() string {\n\tlabel := GBox_%d[string]{V: \"x\"}\n\tcount := GBox_%d[int]{}\n\tcount.V = 2\n\t_ = count\n\treturn label.V\n}\n", s, s, s)
+	g.w("func GenFieldBoth_%d() (string, int, error) {\n\tlabel := GBox_%d[string]{}\n\tcount := GBox_%d[int]{}\n\tfail := GBox_%d[error]{}\n\tlabel.V = \"l\"\n\tfail.V = io.EOF\n\tcount.V = 2\n\treturn label.V, count.V, fail.V\n}\n", s, s, s, s)
+	g.w("func GenFieldErr_%d() error {\n\tfail := GBox_%d[error]{}\n\tn := GBox_%d[int]{}\n\tfail.V = errors.New(\"e\")\n\tn.V = 7\n\t_ = n\n\treturn fail.V\n}\n", s, s, s)
+
 	// calls into the second package, interfaces, forwarding
 	g.w("func Fwd_%d() (int, error) {\n\treturn rp.Lit()\n}\n", s)
 	g.w("func FwdAsg_%d() (int, error) {\n\tv, err := rp.Lit()\n\tif err != nil {\n\t\treturn 0, rp.Wrap(err)\n\t}\n\treturn v + 1, nil\n}\n", s)
